@@ -406,6 +406,15 @@ class Gen:
             ops += [("update_all", {"time": ("static", self.time())})] + obs + [("get_timestamps", None), ("search", self.simple("time"), None, True)]
         return ops
 
+    def file_obs(self):
+        """C04: what an independent reader sees in the file (after closing, when inserts are not flushed)"""
+        if not self.profile.get("file_obs"):
+            return []
+        kw = self.profile.get("storage_kwargs") or {}
+        if kw.get("flush_on_insert", True):
+            return [("file",)]
+        return [("reopen", self.r.random() < 0.6), ("file",), ("all", False)]
+
     def history(self, csv, n_ops=None):
         r = self.r
         ops = []
@@ -414,7 +423,7 @@ class Gen:
             ops = self.scenario(csv)
             for _ in range(r.choice([0, 2, 4])):
                 ops.append(self.read_op())
-            ops += [("all", False), ("len",), ("index_valid",)]
+            ops += self.file_obs() + [("all", False), ("len",), ("index_valid",)]
             return ops
         n0 = r.choice([0, 2, 3, 5, 8, 11, 14])
         if r.random() < self.profile.get("p_selective", 0.4):
@@ -427,7 +436,7 @@ class Gen:
                 ops.append(("insert", pts, None, "multiple"))
             else:
                 ops += [("insert", [p], None) for p in pts]
-            ops += [("index_valid",), ("iter",)]
+            ops += [("index_valid",), ("iter",)] + self.file_obs()
         n_ops = n_ops or r.choice([4, 6, 8, 12])
         allow_raise = self.profile.get("allow_raise", True)
         for _ in range(n_ops):
@@ -435,6 +444,7 @@ class Gen:
             if c < self.profile.get("p_write", 0.45):
                 ops.append(self.write_op(csv, allow_raise))
                 ops += [("index_valid",), ("iter",)]
+                ops += self.file_obs()
             elif c < self.profile.get("p_plain", 0.9):
                 ops.append(self.read_op())
                 if r.random() < 0.3:
